@@ -807,6 +807,7 @@ def guard_interval(fn, val, target, width=32):
     NEG = {'slt': 'sge', 'sge': 'slt', 'sgt': 'sle', 'sle': 'sgt', 'ult': 'uge', 'uge': 'ult', 'ugt': 'ule', 'ule': 'ugt',
            'eq': 'ne', 'ne': 'eq'}
     want = fn.sources(val)
+    excluded = set()
     for ic in fn.order:
         if ic.op != 'icmp':
             continue
@@ -815,6 +816,86 @@ def guard_interval(fn, val, target, width=32):
             continue
         if fn.on_edge(ic.id, True, target):
             tighten(ic.pred, c)
+            if ic.pred == 'ne':
+                excluded.add(c)
         elif fn.on_edge(ic.id, False, target):
             tighten(NEG.get(ic.pred, ''), c)
+            if ic.pred == 'eq':
+                excluded.add(c)
+    # values excluded by != tests shrink a bound they coincide with
+    changed = True
+    while changed:
+        changed = False
+        if lo is not None and lo in excluded:
+            lo += 1
+            changed = True
+        if hi is not None and hi in excluded:
+            hi -= 1
+            changed = True
     return lo, hi
+
+
+def eval_expr(fn, ref, env, depth=0):
+    """constant-fold the pure integer expression computing `ref` with parameter values from env
+    ({param id: int}); returns None if the expression is not pure integer arithmetic"""
+    if depth > 60:
+        return None
+    if isinstance(ref, dict):
+        return ref.get('c')
+    if ref in env:
+        return env[ref]
+    ins = fn.insts.get(ref)
+    if ins is None:
+        return None
+    ops = ins.ops
+
+    def ev(r):
+        return eval_expr(fn, r, env, depth + 1)
+    w = int(ins.ty[1:]) if ins.ty and ins.ty.startswith('i') and ins.ty[1:].isdigit() else 64
+
+    def wrap(x):
+        m = 1 << w
+        x &= m - 1
+        return x - m if x >= m >> 1 else x
+    if ins.op in ('add', 'sub', 'mul', 'sdiv', 'srem', 'shl', 'ashr', 'and', 'or', 'xor'):
+        a, b = ev(ops[0]), ev(ops[1])
+        if a is None or b is None:
+            return None
+        if ins.op == 'add':
+            return wrap(a + b)
+        if ins.op == 'sub':
+            return wrap(a - b)
+        if ins.op == 'mul':
+            return wrap(a * b)
+        if ins.op in ('sdiv', 'srem'):
+            if b == 0:
+                return None
+            q = abs(a) // abs(b)
+            q = q if (a >= 0) == (b >= 0) else -q
+            return wrap(q) if ins.op == 'sdiv' else wrap(a - q * b)
+        if ins.op == 'shl':
+            return wrap(a << b)
+        if ins.op == 'ashr':
+            return a >> b
+        return {'and': a & b, 'or': a | b, 'xor': a ^ b}[ins.op]
+    if ins.op in ('sext', 'trunc', 'freeze', 'bitcast'):
+        a = ev(ops[0])
+        return None if a is None else wrap(a)
+    if ins.op == 'zext':
+        a = ev(ops[0])
+        if a is None:
+            return None
+        sw = int(ins.d['srcty'][1:]) if ins.d.get('srcty', '')[1:].isdigit() else 64
+        return a & ((1 << sw) - 1)
+    if ins.op == 'icmp':
+        a, b = ev(ops[0]), ev(ops[1])
+        if a is None or b is None:
+            return None
+        from .ir import eval_icmp
+        return 1 if eval_icmp(ins.pred, a, b, 64) else 0
+    if ins.op == 'select':
+        c = ev(ops[0])
+        return None if c is None else ev(ops[1] if c else ops[2])
+    if ins.op == 'phi' and len(ins.d['incoming']) == 1:
+        return ev(ins.d['incoming'][0][0])
+    return None
